@@ -884,6 +884,13 @@ def _tarExtractFilter(member, path):
     if os.path.commonpath([full_name, path]) != path:
         raise BuildError(f"Refusing to extract '{name}' from tar file. File is outside of destination directory.")
 
+    # Hard links must refer to something inside the destination as well.
+    # Otherwise a later member of the same name is written through the link.
+    if member.islnk():
+        link_target = os.path.realpath(os.path.join(path, member.linkname))
+        if os.path.commonpath([link_target, path]) != path:
+            raise BuildError(f"Refusing to extract hard link '{name}' from tar file. Link target '{member.linkname}' is outside of destination directory.")
+
     return member
 
 def tarfileOpen(*args, **kwargs):
